@@ -111,7 +111,8 @@ fn judge_f64(st: &mut Stats, rng: &mut Rng, du: usize, dv: usize, kind: u64) {
 
 fn judge_cmplx(st: &mut Stats, rng: &mut Rng, du: usize, dv: usize) {
     st.next_case();
-    let g = |rng: &mut Rng| Cmplx::new(rng.sym(), rng.sym());
+    // general, purely real, purely imaginary and unit coefficients (axis-aligned divisors take special paths in a division)
+    let g = |rng: &mut Rng| match rng.below(6) { 0 => Cmplx::new(rng.sym(), 0.0), 1 => Cmplx::new(0.0, rng.sym()), 2 => *rng.pick(&[Cmplx::new(1.0, 0.0), Cmplx::new(0.0, 1.0), Cmplx::new(0.0, -2.0), Cmplx::new(-1.0, 0.0)]), _ => Cmplx::new(rng.sym(), rng.sym()) };
     let u: Vec<Cmplx> = (0..=du).map(|_| g(rng)).collect();
     let mut v: Vec<Cmplx> = (0..=dv).map(|_| g(rng)).collect();
     if v[dv].abs() < 0.05 { v[dv] = Cmplx::new(0.5, -0.5); }
